@@ -91,8 +91,16 @@ pub fn drive(args: &[String]) {
         let dither = round % 2 == 0;
         let bg = if round % 3 == 0 { None } else { Some(RGBA::new(250, 240, 230, 255)) };
         let ncol = [1usize, 2, 5, 9, 16, 40, 400][rnd.below(7)];
+        // every fourth round: "ink" images - few RGB values, each at several alpha levels (glyph-like coverage), so that
+        // pixels with equal RGB and different alpha composite to different colours
+        let ink = round % 4 == 1;
+        let bases: Vec<(u8, u8, u8)> = (0..2).map(|_| (rnd.below(256) as u8, rnd.below(256) as u8, rnd.below(256) as u8)).collect();
         let colors: Vec<RGBA> = (0..ncol)
-            .map(|_| {
+            .map(|i| {
+                if ink {
+                    let (r, g, b) = bases[i % 2];
+                    return RGBA::new(r, g, b, [255u8, 0, 128, 60, 200, 254, 1, 30][(i / 2) % 8]);
+                }
                 let a = match rnd.below(6) {
                     0 => 0,
                     1 => 128,
@@ -103,11 +111,29 @@ pub fn drive(args: &[String]) {
             .collect();
         // some rounds: a small crop of a large parent (the view is below the sampling threshold, the parent is not)
         let crop_of_large = round % 5 == 4;
-        let (h, w) = if crop_of_large { (1 + rnd.below(6), 1 + rnd.below(6)) } else { (1 + rnd.below(18), 1 + rnd.below(18)) };
+        // every sixth round: the pixel count lies in the upper half of the not-subsampled range (100 k .. 200 k) and all
+        // colours but one occur exactly once (the first pixel among them): a sampler that skips pixels loses them
+        let rare = round % 6 == 5 && !crop_of_large && k >= 2 && k <= 16;
+        let (h, w) = if crop_of_large {
+            (1 + rnd.below(6), 1 + rnd.below(6))
+        } else if rare {
+            let side = ((k * (110 + rnd.below(80))) as f64).sqrt() as usize;
+            (side, (k * (110 + rnd.below(80))) / side)
+        } else {
+            (1 + rnd.below(18), 1 + rnd.below(18))
+        };
+        let ncol = if rare { ncol.min(k) } else { ncol };
+        let rare_at: Vec<usize> = (0..ncol).map(|j| if j == 0 { usize::MAX } else if j == 1 { 0 } else { rnd.below(h * w) }).collect();
         let (ph, pw) = if crop_of_large { (h + 80, w + 80) } else { (h + 2, w + 1) };
         let mut i = 0usize;
-        let parent = Image::from(SurfaceOwned::new_with(Size::new(ph, pw), |_| {
+        let parent = Image::from(SurfaceOwned::new_with(Size::new(ph, pw), |p| {
             i += 1;
+            if rare {
+                // position inside the cropped window (which starts at (1, 1))
+                let inside = p.row >= 1 && p.col >= 1 && p.row <= h && p.col <= w;
+                let n = if inside { (p.row - 1) * w + (p.col - 1) } else { usize::MAX - 1 };
+                return colors[rare_at.iter().position(|at| *at == n).unwrap_or(0)];
+            }
             colors[(i * 7 + rnd.below(3)) % ncol]
         }));
         let img = parent.crop(1..h + 1, 1..w + 1);
